@@ -60,10 +60,11 @@ def make(rng, variant):
         over["contraction"] = float(rng.choice([8, 32, 64]))
     case, order = runs.make_case(rng, variant, **over)
     if variant == "NaiveElimination":
-        case["L"] = int(rng.integers(1, 8))
+        case["L"] = int(rng.integers(1, 8)) if rng.random() < 0.5 else int(rng.integers(51, 130))
+        case["max_rounds"] = 140
     if variant == "Auer-emp":
         case["hetero"] = (np.sqrt(case["noise_var"]) * 10 ** rng.uniform(-1, 1, size=(case["K"], case["m"]))).tolist()  # per (design, objective)
-    case["max_rounds"] = 120
+    case["max_rounds"] = max(120, case.get("max_rounds", 0) if variant == "NaiveElimination" else 120)
     return case, order
 
 
